@@ -402,7 +402,7 @@ def gen_cases(tier, seed):
         for p in (1, 2, 3, 4):
             for part in range(16):
                 cases.append({"kind": "stopper", "alpha": 6, "L": 7, "p": p, "part": part, "nparts": 16, "cost": 20})
-    n_opt = 24 if q else 400
+    n_opt = 24 if q else 1200
     for i in range(n_opt):
         mode = ["batch", "batch", "validation", "plain"][i % 4]
         cases.append({"kind": "optim", "idx": i, "mode": mode, "seed": seed, "cost": 12})
